@@ -154,6 +154,7 @@ def _run(ctx):
     B.make_variant_inputs(ex)
     B.make_gap_weather(ex)
     B.make_fraction_inputs(ex)
+    B.make_sweep_inputs(ex)
     B.make_long_irrigation(ex)
     # lines sharing input files and ids, differing in one interpretation key ("same results alone or together")
     _cache["ik"] = B.run_interp_groups(binary, ex, rng, concs=(1, 2, 8) if ctx.thorough else (1, 2), timeout=TIMEOUT)
@@ -170,6 +171,11 @@ def _run(ctx):
     # every listed class under the other configurations (ex3, rue, zuc, bulk, MUN) + weather gaps on the boundaries of years / of the file
     variants = list(B.VARIANTS) + list(B.GAPS) + list(B.FRACTIONS)   # + fraction / texture errors by position in the profile, PTF 0..4
     longk = list(B.LONG_IRRIGATION)      # valid line that outgrows the irrigation slices (> 1200 events)
+    # configuration sweep: valid lines one key away from the project's configuration, and the error classes under non-default routes
+    pool.update(B.SWEEP); pool.update(B.ROUTED)
+    vsw = [k for k in B.SWEEP if k not in B.SWEEP_NOT_VALID]
+    sweepk = vsw if ctx.thorough else rng.sample(vsw, 40)
+    routedk = list(B.ROUTED) if ctx.thorough else rng.sample(list(B.ROUTED), 14)
     vkeys = list(B.VALID); rng.shuffle(vkeys)
     valid = vkeys[:(8 if ctx.thorough else 4)]
     if "pred" not in valid:
@@ -178,7 +184,7 @@ def _run(ctx):
     classes = list(B.FAILING) + list(B.TEXTURE_FAILING)
     solo = {}
     jobs = [lambda k=k: (k, B.run_batch(binary, ex, "solo_" + re.sub(r"\W", "_", k), [k], pool, 1, 4, timeout=TIMEOUT))
-            for k in valid + classes + variants + longk]
+            for k in valid + classes + variants + longk + sweepk + routedk]
     for k, e in B.parallel(jobs, 6):
         solo[k] = e
     mixed, jobs = [], []
@@ -199,6 +205,16 @@ def _run(ctx):
             batch = vs[:pos] + [v] + vs[pos:]
             jobs.append(lambda v=v, c=c, batch=batch, pos=pos: B.run_batch(
                 binary, ex, "v_%s_p%d_c%d" % (re.sub(r"\W", "_", v), pos, c), batch, pool, c, rng.choice((1, 4, 16)), timeout=TIMEOUT))
+    for v in routedk:                      # the failing line FIRST and LAST
+        vs = rng.sample(valid, 2) + [rng.choice(sweepk)]
+        for tagp, batch in (("first", [v] + vs), ("last", vs + [v])):
+            c = rng.choice(concs)
+            jobs.append(lambda v=v, c=c, batch=batch, tagp=tagp: B.run_batch(
+                binary, ex, "r_%s_%s_c%d" % (re.sub(r"\W", "_", v), tagp, c), batch, pool, c, rng.choice((1, 4, 16)), timeout=TIMEOUT))
+    for c in (2, 8):
+        batch = list(sweepk) + [rng.choice(classes)]
+        rng.shuffle(batch)
+        jobs.append(lambda c=c, batch=batch: B.run_batch(binary, ex, "sweep_c%d" % c, batch, pool, c, 4, timeout=4 * TIMEOUT))
     for c in (1, 8):
         vs = rng.sample(valid, 2) + [rng.choice(classes)]
         batch = vs[:1] + longk + vs[1:]
@@ -234,7 +250,9 @@ def _run(ctx):
                 nev = sum(1 for l in open(os.path.join(ld, fn), errors="replace") if "rrigat" in l)
     _cache["irrigation_events"] = nev
     after = B.tree_snapshot(ex)
-    _cache.update(solo=solo, mixed=mixed, pool=pool, valid=valid, classes=classes + variants, ex=ex, new_files=sorted(after - before))
+    _cache.update(solo=solo, mixed=mixed, pool=pool, valid=valid, classes=classes + variants + routedk, ex=ex,
+                  sweep_info={"lines_in_sweep": len(B.SWEEP), "valid": len(vsw), "valid_run_this_time": len(sweepk),
+                              "error_class_x_route_lines": len(B.ROUTED), "error_class_x_route_run_this_time": len(routedk)}, new_files=sorted(after - before))
     return _cache
 
 
@@ -455,6 +473,10 @@ def oracle(ctx, search):
         fails.append(Fail(key="stray-files:%s" % stray[0].split("/")[0], what="files written outside the lines' own result folders", files=stray[:10]))
     ctx.extra["valid_line_folders_compared_with_solo"] = compared
     ctx.extra["error_classes"] = r["classes"]
+    ctx.extra["configuration_sweep"] = dict(r["sweep_info"], what="valid lines one configuration key (or one pair of switches) away from the project's "
+                                            "configuration: run alone and together in one batch (concurrency 2 and 8), byte-equal; every ex1-based error "
+                                            "class also under non-default routes (yml crop parameters, PTF, csv results, layout-2 weather, txt rotation, ...) "
+                                            "placed first and last in a mixed batch; thorough tier runs all of them")
     seen = set(); uniq = []
     for f in fails:
         if f["key"] not in seen:
